@@ -98,7 +98,6 @@ def runOp (cur : Option Obj) (toks : List String) (oracle : List Tok) : Option O
     | .ok r _ =>
       let res := match r with
         | .refused => "rc=-1 refused"
-        | .garbage => "rc=-1 garbage"
         | .done rc u g => s!"rc={rc} used={asLong u} gen={asLong g}"
       (cur, s!" | {res} | {stateStr none}")
     | .crash _ => (none, " | CRASH")
